@@ -603,6 +603,13 @@ func (f *frame) execTypeAssert(x *ssa.TypeAssert, in string, st *State) {
 	}
 	if x.CommaOk {
 		okn := vc.define(f.prefix+x.Name()+"_ok", "Bool", is)
+		if vc.Spec != nil && vc.Spec.Flags["notypednil"] == "true" && srt == "Loc" {
+			// contract flag: interface values examined by this function never hold
+			// a typed nil pointer (e.g. protobuf oneof wrappers, always allocated
+			// by the decoder). Listed as an assumption in the evidence.
+			vc.assume(And(in, okn), Not(Eq(payload, "Null")))
+			vc.note("assumption (flag notypednil) in %s: an interface whose dynamic type is %s holds a non-nil pointer", FuncName(vc.Fn), x.AssertedType)
+		}
 		res := Val{T: Ite(okn, payload, vc.zeroVal(x.AssertedType)), Typ: x.AssertedType}
 		f.vals[x] = Val{Typ: x.Type(), Tuple: []Val{res, {T: okn, Typ: types.Typ[types.Bool]}}}
 		return
